@@ -169,8 +169,22 @@ func c11Gen(ctx *core.Ctx) {
 	for k := 0; k < nchurn; k++ {
 		run(c11Input{Kind: "script", Ops: c11ChurnRandom(ctx.R, ctx.Thorough)})
 	}
+	// I. EVERY script of up to 3 steps (4 in the thorough tier) over {subscribe prompt / on command
+	// / with an ended context, Broadcast, cancel 0, read 0, Close}: the degenerate histories (no
+	// subscriber at all, Close first, Close twice, everybody gone, Broadcast before anybody
+	// subscribed, ...) on which fast paths go wrong
+	maxDeg := 3
+	if ctx.Thorough {
+		maxDeg = 4
+	}
+	for _, ops := range c11AllShort(maxDeg) {
+		run(c11Input{Kind: "script", Ops: ops})
+	}
 	// F. a departure (of EVERY subscriber) while a Broadcast is blocked in the middle of the list
 	for _, ops := range c11BlockedDeparture() {
+		run(c11Input{Kind: "script", Ops: ops})
+	}
+	for _, ops := range c11BlockedDepartures2() {
 		run(c11Input{Kind: "script", Ops: ops})
 	}
 	// G. the same channel subscribed several times
@@ -310,5 +324,68 @@ func c11BlockedDeparture() [][]c11Op {
 			}
 		}
 	}
+	return out
+}
+
+// c11BlockedDepartures2: the same with TWO subscribers leaving while the Broadcast is blocked
+// (every pair, the stalled one included), so that one Broadcast meets several entries of
+// subscribers that have left but could not deregister yet; then the stalled one reads
+// everything, more Broadcasts, a newcomer, judged per subscriber.
+func c11BlockedDepartures2() [][]c11Op {
+	var out [][]c11Op
+	for n := 3; n <= 5; n++ {
+		for k := 0; k < n; k++ {
+			for j1 := 0; j1 < n; j1++ {
+				for j2 := j1 + 1; j2 < n; j2++ {
+					// the leavers read promptly / do not read either (their buffers are full
+					// too, so the blocked Broadcast can only skip them)
+					for _, stalledLeavers := range []bool{false, true} {
+						var ops []c11Op
+						for i := 0; i < n; i++ {
+							ops = append(ops, sub(i != k && !(stalledLeavers && (i == j1 || i == j2))))
+						}
+						ops = append(ops, bc(12), cancelOp(j1), cancelOp(j2), rall(k), bc(2), sub(true), bc(2))
+						out = append(out, c11Expand(ops))
+					}
+				}
+			}
+		}
+	}
+	return out
+}
+
+// c11AllShort: every valid script of 1..maxLen steps over a 7-letter alphabet.
+func c11AllShort(maxLen int) [][]c11Op {
+	dead := sub(true)
+	dead.D = true
+	alphabet := []c11Op{sub(true), sub(false), dead, {Op: "bcast"}, cancelOp(0), {Op: "read", I: 0}, closeOp()}
+	var out [][]c11Op
+	var rec func(cur []c11Op, nsub, ncl int)
+	rec = func(cur []c11Op, nsub, ncl int) {
+		if len(cur) > 0 {
+			out = append(out, append([]c11Op{}, cur...))
+		}
+		if len(cur) == maxLen {
+			return
+		}
+		for _, a := range alphabet {
+			ns, nc := nsub, ncl
+			switch a.Op {
+			case "sub":
+				ns++
+			case "cancel", "read":
+				if nsub == 0 {
+					continue
+				}
+			case "close":
+				if ncl == 2 {
+					continue
+				}
+				nc++
+			}
+			rec(append(cur, a), ns, nc)
+		}
+	}
+	rec(nil, 0, 0)
 	return out
 }
